@@ -1060,7 +1060,7 @@ pub(crate) fn rg_rcu_aba() {
     rg_rcu(Script { at_access: [0, 0, 0, 0, 0, 0], at_cas: [9, 0], after_cas: [0, 0], at_load: [0; 4] }, OCC_EMPTY);
     vcover!("rg_rcu_aba_end");
 }
-// @harness name=rg_rcu_lost props=C06 tier=quick flavour=nostd timeout=1800 fn=ArcSwapAny::rcu+ArcSwapAny::compare_and_swap
+// @harness name=rg_rcu_lost props=C06 tier=thorough flavour=nostd timeout=1800 fn=ArcSwapAny::rcu+ArcSwapAny::compare_and_swap
 #[cfg_attr(kani, kani::proof)]
 #[cfg_attr(kani, kani::stub(crate::debt::Debt::pay_all, crate::debt::verif_h::pay_all_stub))]
 #[cfg_attr(kani, kani::stub(crate::debt::LocalNode::with, crate::debt::verif_h::list_h::with_static))]
@@ -1070,7 +1070,7 @@ pub(crate) fn rg_rcu_lost() {
     rg_rcu(Script { at_access: [0, 0, 0, 0, 0, 0], at_cas: [2, 0], after_cas: [0, 0], at_load: [0; 4] }, OCC_EMPTY);
     vcover!("rg_rcu_lost_end");
 }
-// @harness name=rg_rcu_lost_then_restored props=C06 tier=quick flavour=nostd timeout=1800 fn=ArcSwapAny::rcu+ArcSwapAny::compare_and_swap
+// @harness name=rg_rcu_lost_then_restored props=C06 tier=thorough flavour=nostd timeout=1800 fn=ArcSwapAny::rcu+ArcSwapAny::compare_and_swap
 #[cfg_attr(kani, kani::proof)]
 #[cfg_attr(kani, kani::stub(crate::debt::Debt::pay_all, crate::debt::verif_h::pay_all_stub))]
 #[cfg_attr(kani, kani::stub(crate::debt::LocalNode::with, crate::debt::verif_h::list_h::with_static))]
